@@ -99,3 +99,29 @@ Definition parse_key_x (ms : list member) (v0 : val) : ares :=
   end.
 
 End Ext.
+
+(* (3) the NESTED command-line channel `--k.<key>=<text>` for a Dict-typed key (ActionTypeHint.__call__ wraps the text in
+   NestedArg(key, text)): parse_value_or_config loads the text inside the NestedArg, the Dict branch of adapt_typehints
+   builds {key: loaded} (no previous value) and adapts the value under the item type — orig_val is the NestedArg, not a
+   str, so the Union str-fallback does not apply —; on ValueError _check_type retries with {key: text}; a NestedArg is
+   never a "valid string". The result is then re-checked by validate like any other value. *)
+Definition check_type_nested (fx : fixes) (yl : str -> lres) (int_keys : bool) (t : ty) (key s : str) : ares :=
+  let td := TDict int_keys t in
+  match parse_value fx yl false (VStr s) with
+  | LValErr => AErr ErrType
+  | pv =>
+      let v := match pv with LVal x => x | _ => VStr s end in
+      match adapt_g fx yl false None td (VDict [(VStr key, v)]) with
+      | AErr ErrValue => match adapt_g fx yl false None td (VDict [(VStr key, VStr s)]) with
+                         | AOk w => AOk w
+                         | AErr _ => AErr ErrType
+                         end
+      | r => r
+      end
+  end.
+
+Definition parse_key_nested (fx : fixes) (yl : str -> lres) (int_keys : bool) (t : ty) (key s : str) : ares :=
+  match check_type_nested fx yl int_keys t key s with
+  | AOk w => match check_type_g fx yl (TDict int_keys t) w with AOk _ => AOk w | AErr e => AErr e end
+  | r => r
+  end.
